@@ -193,10 +193,16 @@ impl Insert {
                 rows_map.insert(keys, row);
             }
         }
+        // An empty string is stored as (and is the same key as) a null value.
+        let new_rows: Vec<Vec<Value>> = self
+            .new_rows
+            .into_iter()
+            .map(|values| values.into_iter().map(Value::into_stored).collect())
+            .collect();
         // Check if any of the new rows already exist in the table (or conflict
         // with each other).
         let mut new_keys_set = HashSet::<Vec<Value>>::new();
-        for values in self.new_rows.iter() {
+        for values in new_rows.iter() {
             let keys: Vec<Value> = key_indices
                 .iter()
                 .map(|&index| values[index].clone())
@@ -217,7 +223,7 @@ impl Insert {
             new_keys_set.insert(keys);
         }
         // Insert the new rows into the table.
-        for values in self.new_rows.into_iter() {
+        for values in new_rows.into_iter() {
             let keys: Vec<Value> = key_indices
                 .iter()
                 .map(|&index| values[index].clone())
